@@ -44,6 +44,16 @@ __attribute__((noinline)) int k_parse_directive(Lexer *lx, int *out) {
   return 1;
 }
 
+// Character-level lexer kernel (C04: decimal literals; C10: every byte string). The Lexer is built by its real constructor;
+// `file` points at a stream object owned by the engine (std::istream::get(char&) and the stream state are modelled there).
+Lexer *k_lexer_new() { return new Lexer(); }
+void k_lexer_attach(Lexer *lx, std::istream *s) { lx->file.reset(s); lx->readChar(); }      // what loadBuffer/openFile do after opening
+__attribute__((noinline)) int k_lexer_next(Lexer *lx) { return static_cast<int>(lx->getNextToken()); }
+unsigned long k_lexer_ident(Lexer *lx, char *out, unsigned long cap) {
+  const std::string &s = lx->getIdentifier(); unsigned long n = s.size() < cap ? s.size() : cap;
+  for (unsigned long i = 0; i < n; i++) out[i] = s[i];
+  return s.size();
+}
 // DATA word emission (C07 materialisation): one DATA directive with value d.
 __attribute__((noinline)) void k_data_emit(int d, std::ostream *os) {
   std::vector<std::unique_ptr<Directive>> program;
